@@ -403,6 +403,11 @@ func runLockstep(t *testing.T, idx int, mode string, rng *mon.RNG) {
 	z := pickZone(rng)
 	chain := pickChain(rng, jump)
 	ops := genLockstep(rng, jump, z)
+	for i := range ops {
+		if ops[i].Kind == "add" {
+			genBad(rng, chain, &ops[i].Spec)
+		}
+	}
 	if chain != "none" {
 		// jobs that block across their own and other entries' activations, and more releases
 		for i := range ops {
@@ -526,6 +531,13 @@ func runLockstep(t *testing.T, idx int, mode string, rng *mon.RNG) {
 		}
 		if !w.viol.Load() {
 			w.checkChain(mode)
+		}
+		if w.viol.Load() && chainBase(w.chain) == "delay" {
+			// goroutines may be parked on a wrapper mutex for good: not a durable wait,
+			// the bubble could never be wound up
+			if !w.dead.Swap(true) {
+				close(w.abandon)
+			}
 		}
 		rec.Count("starts.compared", ls.m.npred)
 	})
